@@ -281,7 +281,10 @@ class UTPM(Ring, RawAlgorithmsMixIn):
         ybar, dummy, xbar = out
         # print 'xbar =', xbar
         # print 'ybar =', ybar
-        if isinstance(xbar, cls) and xbar.shape != ybar[sl].shape:
+        if xbar is None:
+            # x is a constant array (it has no adjoint)
+            pass
+        elif isinstance(xbar, cls) and xbar.shape != ybar[sl].shape:
             # x was broadcast into y[sl]: every element of x collects the
             # adjoints of all the entries it was copied to
             xbar2, tmp = cls.broadcast(xbar, ybar[sl])
